@@ -17,7 +17,8 @@ PROP = {'pkg': 'github.com/ProjectSerenity/firefly/kernel/sync',
             'checks_quick': 80,
             'checks_thorough': 3000,
             'shards_quick': 1,
-            'shards_thorough': 1}],
+            'shards_thorough': 1},
+           {'name': 'TestVerifC08Refusals', 'kind': 'plain', 'tiers': ['thorough']}],
  'rule': '(1) rapid generates a linear history of (worker, acquire|try|release) executed by hand-shake on per-worker '
          'goroutines and compared with an exact model (holder, set of blocked workers): try returns true iff free, an '
          'Acquire issued while held must not return before a Release, exactly one waiter gets in per Release. '
@@ -27,7 +28,8 @@ PROP = {'pkg': 'github.com/ProjectSerenity/firefly/kernel/sync',
          'saw the lock held) > 0. (3) two locks, two tasks: each releases its own lock and at once tries the other one, '
          'thousands of rounds per case on a spin barrier; both tries failing in one round is impossible for a correct '
          'lock (store-buffering litmus). Non-trivial = at least two different outcomes seen among the rounds of the '
-         'case. distinct = hash of the JSON case.',
+         'case. (4, thorough tier only) 2^32 + 2^16 try-acquires during one hold: every one must be refused. '
+         'distinct = hash of the JSON case.',
  'technique': 'rapid model-based sequential histories + generated parallel stress with in-critical-section invariants '
               '+ generated two-lock litmus rounds',
  'level_text': 'The sequential specification of Acquire/TryToAcquire/Release is decided exactly under a harness-owned '
